@@ -4,6 +4,7 @@ import (
 	"fmt"
 	"os"
 	"regexp"
+	"sort"
 	"strings"
 
 	"verif/internal/vk"
@@ -222,7 +223,16 @@ func Progs(rc *vk.Rec) {
 	for k := 0; k < 4*fams["R-signed"]; k++ { // each variant on several signed types
 		extras = append(extras, extra{o: wprog.GenOptions{Family: "R-signed", Variant: k % fams["R-signed"], MaxScens: 1, MaxCalls: 1 << 20}, alwaysC: mode != "c02"})
 	}
-	for _, f := range []string{"S-choose", "F-unify"} {
+	// every variant of every other family at least once, alone in its program
+	// (the random sample mixes 1-3 scenarios and picks variants at random)
+	var fnames []string
+	for f := range fams {
+		if f != "M-kill" && f != "R-signed" && !strings.HasPrefix(f, "G-") {
+			fnames = append(fnames, f)
+		}
+	}
+	sort.Strings(fnames)
+	for _, f := range fnames {
 		for v := 0; v < fams[f]; v++ {
 			extras = append(extras, extra{o: wprog.GenOptions{Family: f, Variant: v, MaxScens: 1, MaxCalls: 1 << 20}, alwaysC: false})
 		}
